@@ -116,6 +116,8 @@ def C02(ctx):
     if ctx.quick:
         more = ctx.sample(more, 500)
     more += ctx.export('FamilyX(p, {"multi-name-var-sets", "arg-returned-through-bind", "arg-returned-directly", "two-files-ok", "star-foreign-tag-ok", "two-unnamed-values", "struct-fields-from-params-crossed"})')
+    # providers of a package named like the injector's own package / like names the generator invents: the call must still reach them
+    more += ctx.export('FamilyNOne(p, "pkg:b", {"@same", "err", "t1", "cleanup"})', extends='WireNames')
     ctx.design_inject(cases + more, maxcalls=2, label='families G R B S M X ')
     ctx.design_analyze(cases + more, limit=400 if ctx.quick else 2500, label='families G R B S M X ', free_roots=False)
     ctx.run(only_success(more), nontrivial=nt, runtime=True, switches=W_ONLY)
